@@ -2048,9 +2048,14 @@ impl<'a> CompilerState<'a> {
                     let mut asm_text = String::new();
                     Self::collect_labels(&code, &mut labels, &mut gotos, &mut asm_text);
                     for (target, pos) in gotos {
-                        if !labels.iter().any(|l| l == target)
-                            && !asm_text.contains(&format!(".{}", target))
-                        {
+                        // (an assembler label is a name at the very start of a line)
+                        let local_label = format!(".{}", target);
+                        let in_asm = asm_text.lines().any(|l| {
+                            l.strip_prefix(local_label.as_str()).is_some_and(|rest| {
+                                !rest.starts_with(|c: char| c.is_ascii_alphanumeric() || c == '_')
+                            })
+                        });
+                        if !labels.iter().any(|l| l == target) && !in_asm {
                             return Err(self.syntax_error(&format!("Undefined label {}", target), pos));
                         }
                     }
